@@ -68,9 +68,12 @@ class World:
         def ref(kind, av, name, uid, ctrl=True):
             return {"kind": kind, "av": av, "name": name, "uid": uid, "ctrl": ctrl}
         other = "NoStatus" if self.pkind == "Parent" else "Parent"
+        # (the owner reference may have been written under ANOTHER served version of the parent's API group: the
+        # statement resolves it by group, kind, name and uid)
+        pav = PAV.rsplit("/", 1)[0] + "/v2" if getattr(self, "altver", False) else PAV
         owners = {
-            "ownP1": [ref(self.pkind, PAV, "p1", p1["uid"])],
-            "ownP2": [ref(self.pkind, PAV, "p2", p2["uid"])],
+            "ownP1": [ref(self.pkind, pav, "p1", p1["uid"])],
+            "ownP2": [ref(self.pkind, pav, "p2", p2["uid"])],
             "foreign": [ref("Deployment", "apps/v1", "d", "dep-1")],
             "wrongUid": [ref(self.pkind, PAV, "p1", "stale-uid")],
             "wrongKind": [ref(other, PAV, "p1", p1["uid"])],
@@ -98,6 +101,7 @@ def sentinel(res):
 
 def convert(raw, sid):
     w = World(raw)
+    w.altver = int(sid.rsplit("-", 1)[1]) % 3 == 1
     kind, pres = w.kind, w.pres
     w0 = raw["w0"]
     cust = bool(raw["customize"])
